@@ -11,7 +11,7 @@
 typedef struct { const char *op; int w; int kind; } opw;
 enum { K_HOLD = 1, K_TADD, K_TSET, K_TCANCEL, K_TCLEAR, K_YIELD, K_INTR, K_STOP, K_PRIO, K_RESUME, K_START, K_WAITP, K_WAITE,
        K_SCHEV, K_CANEV, K_EXIT, K_STOPSELF, K_ACQ, K_REL, K_PRE, K_PACQ, K_PPRE, K_PREL, K_BPUT, K_BGET, K_QPUT, K_QGET,
-       K_KPUT, K_KGET, K_KCAN, K_KREP, K_CWAIT, K_CSIG, K_SETVAR, K_CCAN, K_CREM, K_GCAN, K_GREM, K_RECON, K_RECOFF, K_BLOCK_RES, K_BLOCK_POOL, K_REPORT };
+       K_KPUT, K_KGET, K_KCAN, K_KREP, K_CWAIT, K_CSIG, K_SETVAR, K_CCAN, K_CREM, K_GCAN, K_GREM, K_RECON, K_RECOFF, K_BLOCK_RES, K_BLOCK_POOL, K_REPORT, K_OBS };
 
 static int cfg_has(const char *cfg, const char *key, const char *val)
 {
@@ -219,6 +219,7 @@ void procs_gen(plan *p, uint64_t seed, const char *cfg)
     if (noq) { ADD("QPUT", 14, K_QPUT); ADD("QGET", 14, K_QGET); }
     if (npq) { ADD("KPUT", 14, K_KPUT); ADD("KGET", 13, K_KGET); ADD("KCAN", 3, K_KCAN); ADD("KREP", 3, K_KREP); }
     if (ncond) { ADD("CWAIT", 14, K_CWAIT); ADD("CSIG", 5, K_CSIG); ADD("SETVAR", 9, K_SETVAR); ADD("CCAN", wf, K_CCAN); ADD("CREM", wf ? 1 : 0, K_CREM); }
+    if (ncond && (nres + npool + nbuf + noq + npq)) ADD("OBS", 3, K_OBS);
     if (nres + npool + nbuf + noq + npq) { ADD("GCAN", wf, K_GCAN); ADD("GREM", wf ? 1 : 0, K_GREM); }
     if (rec) { ADD("RECON", 3, K_RECON); ADD("RECOFF", 2, K_RECOFF); }
     ADD("REPORT", rec ? 2 : 1, K_REPORT);
@@ -305,6 +306,7 @@ void procs_gen(plan *p, uint64_t seed, const char *cfg)
                 case K_GREM: plan_add(p, "GREM", 3, I, (int64_t)vrng_below(&r, 12), j); break;
                 case K_RECON: plan_add(p, "RECON", 3, I, (int64_t)vrng_below(&r, 5), (int64_t)vrng_below(&r, 2)); break;
                 case K_RECOFF: plan_add(p, "RECOFF", 3, I, (int64_t)vrng_below(&r, 5), (int64_t)vrng_below(&r, 2)); break;
+                case K_OBS: plan_add(p, "OBS", 4, I, (int64_t)vrng_below(&r, (uint64_t)ncond), (int64_t)vrng_below(&r, 12), (int64_t)vrng_below(&r, 4)); break;
                 case K_REPORT: plan_add(p, "REPORT", 3, I, (int64_t)vrng_below(&r, 6), (int64_t)vrng_below(&r, 2)); break;
                 default: break;
             }
